@@ -117,23 +117,31 @@ def tok_join(a, b):
 
 
 class State:
-    __slots__ = ("env", "trail")
+    __slots__ = ("env", "trail", "parsed", "deep")
 
-    def __init__(self, env, trail=()):
+    def __init__(self, env, trail=(), parsed=(), deep=(False, False)):
         self.env = env
         self.trail = trail
+        self.parsed = parsed      # ((hid, cursor value), callee): sub-parses already started from that very cursor on this path
+        self.deep = deep          # (a sub-parse that can nest the enclosing construct has returned, the last callee's Err may come from below such a parse)
 
     def set(self, hid, v):
         e = dict(self.env)
         e[hid] = v
-        return State(e, self.trail)
+        return State(e, self.trail, self.parsed, self.deep)
 
     def note(self, s):
         t = self.trail + (s,)
-        return State(self.env, t[-14:])
+        return State(self.env, t[-14:], self.parsed, self.deep)
+
+    def did_parse(self, key, cal):
+        return State(self.env, self.trail, (self.parsed + ((key, cal),))[-6:], self.deep)
+
+    def with_deep(self, d):
+        return State(self.env, self.trail, self.parsed, d)
 
     def key(self):
-        return tuple(sorted((k, v) for k, v in self.env.items() if v != OPAQUE))
+        return (tuple(sorted((k, v) for k, v in self.env.items() if v != OPAQUE)), self.deep)
 
 
 def dedupe(outs):
@@ -502,7 +510,7 @@ class Interp:
         for v, s in self.ev(n["e"], st):
             if v[0] == "r":
                 if v[2] is not None:
-                    self.returns.append((("r", None, v[2]), s))
+                    self.returns.append((("r", None, v[2]), s.with_deep((s.deep[0] or s.deep[1], False))))
                 if v[1] is not None:
                     out.append((v[1], s))
             else:
@@ -852,6 +860,9 @@ class Interp:
                 else:
                     head_later = head_later.set(h, OPAQUE)
             dead |= set(later.values())
+            dp = (entry.deep[0] or any(b_.deep[0] for b_ in backs0), entry.deep[1] or any(b_.deep[1] for b_ in backs0))
+            head_later = head_later.with_deep(dp)
+            head = head.with_deep(dp)
             seen = set()
             on_stack = set()
 
@@ -916,7 +927,7 @@ class Interp:
         res = []
         for v, s in exits:
             e = {k: self.lift_out(x, dead) for k, x in s.env.items()}
-            res.append((self.lift_out(v, dead) if v != OPAQUE else v, State(e, s.trail)))
+            res.append((self.lift_out(v, dead) if v != OPAQUE else v, State(e, s.trail, s.parsed, s.deep)))
         return dedupe(res)
 
     # ---- calls
@@ -1023,6 +1034,16 @@ class Interp:
             if idx is not None and idx < len(vals) and vals[idx][0] == "c":
                 a = vals[idx]
                 self.calls.append((c, a))
+                an = peel(arg_nodes[idx])
+                if an.get("k") == "Path" and an.get("res") == "Local" and self.inline_depth == 0:
+                    key = (an["hid"], a)
+                    if self.record_sites:
+                        for k0, c0 in st.parsed:
+                            if k0 == key:
+                                A.reparse.setdefault((self.fn.get("_path", "?"), c0, c), (line_of(n), n))
+                    st = st.did_parse(key, c)
+                dp = A.deepness.get(c, (False, False))
+                st = st.with_deep((st.deep[0] or dp[0] or c in A.recursive, dp[1] or c in A.recursive))
                 ret = sm["ret"]
                 if ret is None:
                     return [(OPAQUE, st)]
@@ -1264,6 +1285,9 @@ class Analysis:
         self.spec_new = False
         self.in_fixpoint = False
         self.sites = {}
+        self.reparse = {}
+        self.deepness = {}
+        self.recursive = set()
         self.reading = set()
         self.prev_unsafe = []
         self.assumed_callables = set()
@@ -1320,6 +1344,59 @@ class Analysis:
             self.fixpoint_()
         finally:
             self.in_fixpoint = False
+        self.compute_deepness()
+
+    def compute_deepness(self):
+        """which parsing functions can return (Ok / Err) from below a sub-parse that may nest the same construct again:
+        the functions on a cycle of the call graph, and - least fixed point - whatever returns after having called one"""
+        graph = {}
+        for p in self.cands:
+            try:
+                it, _ = self.run_fn(p)
+            except TooManyStates:
+                continue
+            graph[p] = {c for c, _ in it.calls}
+        rec = set()
+        for p in graph:
+            seen, todo = set(), list(graph[p])
+            while todo:
+                q = todo.pop()
+                if q == p:
+                    rec.add(p)
+                    break
+                if q not in seen:
+                    seen.add(q)
+                    todo += list(graph.get(q, ()))
+        self.recursive = rec
+        self.deepness = {p: (False, False) for p in self.cands}
+        for _ in range(10):
+            changed = False
+            for p in sorted(self.cands):
+                fn, idx = self.cands[p]
+                it = Interp(self, fn)
+                env = {}
+                for i, prm in enumerate(fn["params"]):
+                    for b in pat_bindings(prm["pat"]):
+                        env[b["hid"]] = ("c", "P", "EQ", None) if i == idx else self_unknown(it, b)
+                try:
+                    outs = it.ev(fn_body(fn), State(env))
+                except TooManyStates:
+                    continue
+                ok = err = False
+                for v, s_ in list(outs) + it.returns:
+                    if v[0] == "r":
+                        if v[1] is not None and s_.deep[0]:
+                            ok = True
+                        if v[2] is not None and (s_.deep[0] or s_.deep[1]):
+                            err = True
+                    elif s_.deep[0]:
+                        ok = True
+                new = (self.deepness[p][0] or ok, self.deepness[p][1] or err)
+                if new != self.deepness[p]:
+                    self.deepness[p] = new
+                    changed = True
+            if not changed:
+                break
 
     def fixpoint_(self):
         """chaotic iteration: an entry (function, or function + token fact) is recomputed when an entry it read changed"""
@@ -1382,12 +1459,46 @@ class Analysis:
                 self.callable_checks()
                 self.prev_unsafe = []
                 self.sites = {}
+                self.reparse = {}
                 dirty = set(("spec", p, tok) for (p, tok) in self.spec if ("spec", p, tok) not in self.deps)
                 if not dirty:
                     self.rounds = rnd + 1
                     return
         self.rounds = 60
         self.problems.append("summaries did not stabilise in 60 rounds")
+
+    def call_graph(self):
+        g = {}
+        for p in self.cands:
+            try:
+                it, _ = self.run_fn(p)
+            except TooManyStates:
+                continue
+            g[p] = {c for c, _ in it.calls}
+        return g
+
+    def retry_outcome(self, fn, c0, second_call):
+        """is the second sub-parse only started after the first one failed ("err"), only after it succeeded ("ok"), or
+        either way ("any")?  Decided from where the second call stands: inside an arm / branch on the first call's result"""
+        for m, parents in walk(fn_body(fn)):
+            if m.get("k") == "Match" and any(callee(x) == c0 for x in nodes(m["scrut"]) if x.get("k") == "Call"):
+                for a in m["arms"]:
+                    if any(x is second_call for x in nodes(a["body"])):
+                        vs = {pat_variant(alt) or "" for alt in pat_alternatives(a["pat"])}
+                        if all(v.endswith("Result::Err") for v in vs):
+                            return "err"
+                        if all(v.endswith("Result::Ok") for v in vs):
+                            return "ok"
+            if m.get("k") == "If" and peel(m["c"]).get("k") == "LetCond" and \
+                    any(callee(x) == c0 for x in nodes(peel(m["c"])["init"]) if x.get("k") == "Call"):
+                v = pat_variant(peel(m["c"])["pat"]) or ""
+                in_then = any(x is second_call for x in nodes(m["t"]))
+                in_else = m.get("e") is not None and any(x is second_call for x in nodes(m["e"]))
+                if v.endswith("Result::Ok"):
+                    return "ok" if in_then else "err" if in_else else "any"
+                if v.endswith("Result::Err"):
+                    return "err" if in_then else "ok" if in_else else "any"
+        return "any"
 
     def callable_checks(self):
         """every callable handed to a parameter of type `impl Fn(Context) -> ..`: (caller, what, ok, detail)"""
@@ -1440,7 +1551,8 @@ class Analysis:
         for p in sorted(self.fns):
             fn = self.fns[p]
             loop_nodes = [x for x in nodes(fn_body(fn)) if x.get("k") in ("Loop", "While")]
-            if not loop_nodes:
+            # (functions without loops are interpreted as well: vector bounds, repeated sub-parses, prev() callers)
+            if not loop_nodes and p not in self.cands:
                 continue
             results = {}
             if p in self.cands:
